@@ -424,7 +424,7 @@ pub fn market_script<W: Write>(w: &mut W, st: &mut EStats, id: u64, t: &mut dyn 
         let tick = ticks[a];
         let pr = |g: &mut Sm| { let p = (8 + g.below(6) as u32) * tick; if extreme && u32::MAX % tick == 0 && g.chance(1, 4) { u32::MAX - p } else { p } };
         let op = match g.below(100) {
-            0..=39 => { let vol = if extreme && g.chance(1, 8) { *g.pick(&[(1u32 << 31) - 1, 1u32 << 31, 3_000_000_000]) } else { 1 + g.below(5) as u32 };
+            0..=39 => { let vol = if extreme && g.chance(1, 8) { *g.pick(&[(1u32 << 31) - 1, 1u32 << 31, 3_000_000_000]) } else if g.chance(1, 30) { 0 } else { 1 + g.below(5) as u32 };
                 EOp::Direct(a, Op::CreatePlace { bid: g.chance(1, 2), vol, trader: g.below(4) as u32, price: Some(pr(g)) }) }
             40..=46 => EOp::Direct(a, Op::CreatePlace { bid: g.chance(1, 2), vol: 1 + g.below(5) as u32, trader: 5, price: None }),
             47..=52 => EOp::Direct(a, Op::Create { bid: g.chance(1, 2), vol: 1 + g.below(5) as u32, trader: 6, price: Some(pr(g)) }),
@@ -432,7 +432,8 @@ pub fn market_script<W: Write>(w: &mut W, st: &mut EStats, id: u64, t: &mut dyn 
             59..=70 if n > 0 => EOp::Direct(a, if g.chance(1, 2) { Op::Cancel(g.below(n as u64) as usize) } else { Op::EvCancel(g.below(n as u64) as usize) }),
             71..=82 if n > 0 => { let id = g.below(n as u64) as usize; let cur = t.vol_of(a, id);
                 let p = if g.chance(1, 2) { None } else { Some(pr(g)) };
-                let v = match g.below(3) { 0 => None, 1 => Some(cur.saturating_sub(1).max(1)), _ => Some(cur.saturating_add(2)) };
+                // (a modification to volume 0 is accepted by the API: the order stays active and keeps its level)
+                let v = if g.chance(1, 10) { Some(0) } else { match g.below(3) { 0 => None, 1 => Some(cur.saturating_sub(1).max(1)), _ => Some(cur.saturating_add(2)) } };
                 EOp::Direct(a, if g.chance(1, 2) { Op::Modify(id, p, v) } else { Op::EvModify(id, p, v) }) }
             83..=85 => EOp::Direct(a, Op::CreatePlace { bid: g.chance(1, 2), vol: 2, trader: 9, price: Some(pr(g) + if tick > 1 { 1 } else { 0 }) }),
             86..=88 => if g.chance(1, 2) { EOp::Disable } else { EOp::Enable },
